@@ -4,6 +4,9 @@ import (
 	"context"
 	"sort"
 
+	"google.golang.org/grpc/codes"
+	"google.golang.org/grpc/status"
+
 	"github.com/smart-core-os/sc-api/go/traits"
 	"github.com/smart-core-os/sc-api/go/types"
 	"github.com/smart-core-os/sc-golang/pkg/masks"
@@ -31,6 +34,9 @@ func (s *ModelServer) ListChildren(_ context.Context, request *traits.ListChildr
 	}
 
 	lastKey := pageToken.GetLastResourceName() // the key() of the last item we sent
+	if request.GetPageSize() < 0 {
+		return nil, status.Error(codes.InvalidArgument, "page_size must not be negative")
+	}
 	pageSize := capPageSize(int(request.GetPageSize()))
 
 	all := s.model.ListChildren()
